@@ -57,6 +57,7 @@ func VerifC06Size(nd int, kw int) {
 	sc := vrf.NewScriptConn()
 	var codes []int
 	bodySent := false
+	var first []vrfCall // Deliver calls made by the first transaction
 	step := 0
 	sc.Next = func() vrf.Step {
 		codes = append(codes, vrfCode(sc.Replies))
@@ -78,14 +79,26 @@ func VerifC06Size(nd int, kw int) {
 			}
 			return vrf.Step{Kind: vrf.StepLine, Text: "NOOP"}
 		case 6:
+			// what the first transaction delivered is fixed at this point
+			first = append([]vrfCall(nil), mgr.calls...)
 			return vrf.Step{Kind: vrf.StepLine, Text: "MAIL FROM:<again@o.org>"}
+		case 7:
+			return vrf.Step{Kind: vrf.StepLine, Text: "RCPT TO:<v@d.org>"}
+		case 8:
+			return vrf.Step{Kind: vrf.StepLine, Text: "DATA"}
+		case 9:
+			if len(codes) == 9 && codes[8] == 354 {
+				return vrf.Step{Kind: vrf.StepBody, Body: []byte("x\r\n")}
+			}
+			return vrf.Step{Kind: vrf.StepLine, Text: "NOOP"}
 		}
 		return vrf.Step{Kind: vrf.StepEOF}
 	}
 	srv.startSession(1, sc, zerolog.Nop())
-	// codes[0] banner, [1] EHLO, [2] MAIL, [3] RCPT, [4] DATA, [5] body/NOOP, [6] second MAIL
-	vrf.Assert("script-complete", len(codes) == 7)
-	if len(codes) != 7 {
+	// codes[0] banner, [1] EHLO, [2] MAIL, [3] RCPT, [4] DATA, [5] body/NOOP, [6] second MAIL,
+	// [7] RCPT, [8] DATA, [9] body
+	vrf.Assert("script-complete", len(codes) == 10)
+	if len(codes) != 10 {
 		return
 	}
 	vrf.Cover("dialogue-done")
@@ -93,7 +106,7 @@ func VerifC06Size(nd int, kw int) {
 		if declared > limit {
 			vrf.CoverIf("size-refused", true)
 			vrf.Assert("declared-oversize-refused-552", codes[2] == 552)
-			vrf.Assert("declared-oversize-nothing-delivered", len(mgr.calls) == 0)
+			vrf.Assert("declared-oversize-nothing-delivered", len(first) == 0)
 		} else {
 			vrf.Assert("declared-within-limit-accepted", codes[2] == 250)
 		}
@@ -105,16 +118,25 @@ func VerifC06Size(nd int, kw int) {
 		if n > limit {
 			vrf.CoverIf("oversize-body", true)
 			vrf.Assert("oversize-data-refused", codes[5] >= 500)
-			vrf.Assert("oversize-data-not-delivered", len(mgr.calls) == 0)
+			vrf.Assert("oversize-data-not-delivered", len(first) == 0)
 		} else {
 			vrf.CoverIf("body-within-limit", true)
 			vrf.Assert("within-limit-accepted", codes[5] == 250)
-			vrf.Assert("within-limit-delivered-once", len(mgr.calls) == 1)
-			if len(mgr.calls) == 1 {
-				vrf.Assert("delivered-size", mgr.calls[0].size == n)
+			vrf.Assert("within-limit-delivered-once", len(first) == 1)
+			if len(first) == 1 {
+				vrf.Assert("delivered-size", first[0].size == n)
 			}
 		}
 	}
-	// the session remains usable after a refusal: a new MAIL is accepted
+	// the session remains usable after a refusal: a new MAIL is accepted, and the new transaction
+	// delivers to its own recipient only (the refused or completed one left nothing behind)
 	vrf.Assert("session-usable-afterwards", codes[6] == 250)
+	if 3 < limit && codes[6] == 250 {
+		vrf.Assert("second-transaction-accepted", codes[7] == 250 && codes[8] == 354 && codes[9] == 250)
+		vrf.Assert("second-transaction-delivered-once", len(mgr.calls) == len(first)+1)
+		if len(mgr.calls) == len(first)+1 {
+			last := mgr.calls[len(mgr.calls)-1]
+			vrf.Assert("second-transaction-own-envelope", last.from == "again@o.org" && len(last.rcpts) == 1 && last.rcpts[0] == "v@d.org")
+		}
+	}
 }
